@@ -106,6 +106,11 @@ def _walk(n, f, path, in_throw):
   k = n.get('kind')
   if k == 'DeclRefExpr':
     rd = n.get('referencedDecl') or {}
+    if rd.get('kind') == 'FunctionDecl' and id(n) not in f.setdefault('_callees', set()):
+      # a function named without being called (a dispatch table entry, a
+      # callback): an alternative that is tried through the table
+      f['calls'].append(rd.get('name'))
+      f['events'].append(('call', rd.get('name'), in_throw))
     d = _NSVARS.get(rd.get('id'))
     if d is not None and rd.get('id') not in path:
       for c in d.get('inner') or []:
@@ -126,6 +131,14 @@ def _walk(n, f, path, in_throw):
       pass
   elif k in ('CallExpr', 'CXXMemberCallExpr', 'CXXOperatorCallExpr'):
     name = _callee_name(n)
+    # the callee expression itself is not a table entry
+    stack_ = list((n.get('inner') or [])[:1])
+    while stack_:
+      q_ = stack_.pop()
+      if q_.get('kind') == 'DeclRefExpr':
+        f.setdefault('_callees', set()).add(id(q_))
+        break
+      stack_ = list(q_.get('inner') or [])[:1] + stack_
     if name:
       f['calls'].append(name)
       f['events'].append(('call', name, in_throw))
